@@ -13,7 +13,7 @@ S = 'Sheet1!'
 
 class ModelSpec:
     def __init__(self, name, cells, inputs, values, ref, names=None,
-                 order=None):
+                 order=None, eval_cells=None):
         self.name = name
         self.cells = cells                  # addr -> constant or '=formula'
         self.inputs = inputs                # list of addresses
@@ -23,6 +23,8 @@ class ModelSpec:
         self.formulas = [a for a, v in cells.items()
                          if isinstance(v, str) and v.startswith('=')]
         self.all_cells = list(cells)
+        # cells that schedules may evaluate (default: all of them)
+        self.eval_cells = list(eval_cells) if eval_cells else list(cells)
 
     def initial_inputs(self):
         return {a: self.cells[a] for a in self.inputs}
@@ -149,8 +151,27 @@ def named():
         names={'inp': A1})
 
 
+def longrange():
+    """A range over 110 formula cells (more than the evaluator's
+    consecutive-blank cut-off) that are blank until evaluated."""
+    n = 110
+    B1, C1, C2 = S + 'B1', S + 'C1', S + 'C2'
+    cells = {B1: 3}
+    ref = {}
+    for k in range(1, n + 1):
+        a = S + 'A%d' % k
+        cells[a] = '=$B$1+%d' % k
+        ref[a] = (lambda k: lambda g: g(B1) + k)(k)
+    cells[C1] = '=SUM(A1:A%d)' % n
+    cells[C2] = '=COUNTA(A1:A%d)+C1' % n
+    ref[C1] = lambda g: sum(g(B1) + k for k in range(1, n + 1))
+    ref[C2] = lambda g: n + g(C1)
+    return ModelSpec('longrange', cells, [B1], [0, 5], ref,
+                     eval_cells=[C1, C2, S + 'A1', S + 'A%d' % n, B1])
+
+
 ALL = [chain, diamond, sumrange, formularange, crosssheet, textmodel, named]
-ALL_C05 = ALL + [twodim]
+ALL_C05 = ALL + [twodim, longrange]
 
 
 def by_name(name):
